@@ -84,6 +84,7 @@ let handle (toks : string list) : string =
          | "C" :: t -> toks t (Machine.TCrash :: acc)
          | "S" :: t -> toks t (Machine.TRestart :: acc)
          | "N" :: t -> toks t (Machine.TNewReader :: acc)
+         | "J" :: v :: t -> toks t (Machine.TJump (z_of_string v) :: acc)
          | "R" :: j :: k :: t ->
            let ch = if int_of_string k < 0 then None else Some (nat_of_int (int_of_string k)) in
            toks t (Machine.TR (nat_of_int (int_of_string j), ch) :: acc)
